@@ -227,13 +227,22 @@ fn writer_history(ctx: &mut Ctx, ops: &[Op], r: &mut Rng, reads_after_each: bool
                 }
                 ctx.count("ev:append-failed-by-storage-fault:[]");
                 mon.after("append-failed-by-storage-fault", &Expect::Exactly(vec![]), &[]).map_err(|f| (i, f))?;
-                // the failed call made no block available: reads at and beyond the old length on
-                // the same instance are reads of blocks that are not held - exactly one get event each
-                for ix in [old_len, old_len + 1 + r.below(3)] {
+                // The failed call either did not happen or - when the fault hit the flush after the
+                // commit point - is applied (C10: before-or-after). Whichever it is, the live
+                // instance must be consistent with the length it reports: a read at or beyond that
+                // length is a read of a block that is not held - Ok(None) and exactly one get event.
+                // (An append applied by a call that returned Err was never announced; that is the
+                // "continued use after a failed call" observation of DESIGN.md section 6, counted
+                // here and not judged.)
+                let live_len = sut.core().info().length;
+                if live_len != old_len {
+                    ctx.count("info:failed-append-applied-on-live-instance-unannounced");
+                }
+                for ix in [live_len, live_len + 1 + r.below(3)] {
                     match exec::call(sut.core().get(ix)) {
                         Ok(Ok(None)) => {}
                         other => {
-                            return Err((i, fail("read-after-failed-append", format!("get({ix}) after an append that failed at length {old_len}: {:?}", other.map(|x| x.map(|y| y.map(|z| z.len())).map_err(|e| e.to_string()))))));
+                            return Err((i, fail("read-after-failed-append", format!("get({ix}) after an append that failed (old length {old_len}, length reported afterwards {live_len}): {:?}", other.map(|x| x.map(|y| y.map(|z| z.len())).map_err(|e| e.to_string()))))));
                         }
                     }
                     ctx.count("ev:get-after-failed-append:[G]");
